@@ -227,6 +227,16 @@ InsertKept(hs, keep, k, v, snap, now) ==
     /\ LiveAtBirth(hs) => (k \in KeysIn(snap.res) /\ Ent(snap.res, k).v = v)
     /\ \A j \in keep : (j # k /\ RefLive(hs, j, now)) => j \in KeysIn(snap.res)
 
+NoOtherLossApplies(hs, pre, e) ==
+    ~IsSync(hs) /\ e.ev \in {"Get", "Contains", "Invalidate", "InvalidateIf", "Iter", "Advance"}
+    /\ ExcessT(hs, pre) = 0
+NoOtherLoss(hs, pre, e) ==
+    NoOtherLossApplies(hs, pre, e) =>
+       \A i \in DOMAIN pre.res :
+          LET k == pre.res[i].k IN
+          (RefLive(hs, k, e.now) /\ pre.res[i].v = hs.last[k].v /\ k \notin Targeted(hs, e))
+             => k \in KeysIn(e.snap.res)
+
 Allowed_C03(hs, pre, e) ==
     /\ \* (a) while the history stayed within capacity, the cache is a map with expiry
        hs.within =>
@@ -241,7 +251,13 @@ Allowed_C03(hs, pre, e) ==
     /\ \* (b') concurrent cache: the same, judged at the sync() that follows the insert
        (e.ev = "Sync" /\ hs.pend.on /\ hs.pend.fits /\ hs.pend.now = e.now /\ Quiescent(e.snap)) =>
            InsertKept(hs, hs.pend.keep, hs.pend.k, hs.pend.v, e.snap, e.now)
+    /\ \* (c) "nothing is dropped for any other reason", whatever happened earlier: on the
+       \* single-threaded cache a call that is not an insert, made while the cache is not above its
+       \* capacity, loses no resident that holds the latest value of a key the history says is
+       \* surely live (its own targets excepted)
+       NoOtherLoss(hs, pre, e)
 NT_C03(hs, pre, e) ==
+    \/ (NoOtherLossApplies(hs, pre, e) /\ \E i \in DOMAIN pre.res : RefLive(hs, pre.res[i].k, e.now))
     \/ (hs.within /\ e.ev \in {"Get", "Contains"} /\ RefLive(hs, e.k, e.now))
     \/ (hs.within /\ e.ev = "Iter" /\ \E k \in HKeys(hs) : RefLive(hs, k, e.now))
     \/ (e.ev = "Insert" /\ ~IsSync(hs) /\ FitsPhys(hs, pre, e) /\ ExcessOf(hs, pre) = 0)
